@@ -20,7 +20,11 @@ CONSTANTS OPS,        \* operations enumerated in this run
           SEEDS,      \* internal RNG seeds
           BACKENDS,   \* {"py"} or {"py", "cpp"}
           PREC, MAXFULL, SOLVER, SYSCLS,  \* amen_solve: preconditioner, max_full, local solver, system class
-          SCALES      \* magnitude classes: "unit", "bigcore" (one non-final core of the first operand times 1e5), "small" (overall 1e-5)
+          SCALES,     \* magnitude classes: "unit", "bigcore" (one non-final core of the first operand times 1e5), "small" (overall 1e-5)
+          OPTS        \* documented optional arguments beyond the ones above, one deviation from the defaults per configuration:
+                      \* "verbose", "kick1" (enrichment rank 1), "kick22" (kickrank = 2, kick2 = 2), "iters" (local_iterations = 10,
+                      \* resets = 8), "rmax64" (a rank cap that does not bind), "nswp40", "band1" / "band2" (amen_solve told that
+                      \* the operator cores are banded with that bandwidth; the system classes with tridiagonal cores only)
 
 VARIABLES cfg, expect
 vars == <<cfg, expect>>
@@ -39,12 +43,23 @@ HasGuess(op) == op \in {"fast_matvec", "dmrg_hadamard", "amen_mv", "amen_mm", "e
                         "amen_solve", "dmrg_cross", "interp_uni", "interp_multi"}
 ComplexOK(op) == op \in {"fast_matvec", "dmrg_hadamard"}
 MinOrder(op) == IF op \in ProductOps THEN 1 ELSE 2
+\* which routine documents which optional argument
+OptOK(op, o) ==
+    CASE o = "default" -> TRUE
+      [] o \in {"verbose", "nswp40"} -> op \in ProductOps \cup SolveOps \cup CrossOps \cup {"elementwise_divide"}
+      [] o = "kick1" -> op \in {"dmrg_hadamard", "amen_mv", "amen_mm", "amen_solve", "elementwise_divide"}
+      [] o = "kick22" -> op \in {"amen_mv", "amen_mm", "amen_solve"}
+      [] o = "iters" -> op \in {"amen_solve", "elementwise_divide"}
+      [] o = "rmax64" -> op \in {"dmrg_hadamard", "amen_mv", "amen_mm", "amen_solve"}
+      [] o \in {"band1", "band2"} -> op \in SolveOps
+      [] OTHER -> FALSE
+MinSeed == CHOOSE m \in SEEDS : \A n \in SEEDS : m <= n
 
 Init == /\ expect = [t |-> "none"]
         /\ \E op \in OPS, N \in SHAPES, r \in RANKS, e \in EPSEXP, g \in GUESS, s \in SEEDS, cx \in BOOLEAN, be \in BACKENDS,
               data \in {"rand", "decay", "zero", "col1"}, sq \in BOOLEAN,
               prec \in PREC \cup {"none"}, mf \in MAXFULL \cup {500}, ls \in SOLVER \cup {1}, sys \in SYSCLS \cup {"na"},
-              sc \in SCALES \cup {"unit"} :
+              sc \in SCALES \cup {"unit"}, opt \in OPTS \cup {"default"} :
              /\ Len(N) >= MinOrder(op)
              /\ (g # "none" => HasGuess(op))
              /\ (g \in {"sweep1", "sweep2"} => op \in CrossOps /\ sc = "unit")
@@ -75,8 +90,13 @@ Init == /\ expect = [t |-> "none"]
              \* large order-4 grids (interior local systems solved iteratively, interior bonds converging last): plain calls only
              /\ (op \in DivideOps /\ Len(N) >= 4 /\ N[2] >= 8 => g = "none" /\ sc = "unit" /\ r >= 3 /\ data = "rand")
              /\ (op = "elementwise_divide_c" \/ op \in {"div", "rdiv"} => g \in {"none"} \/ op = "elementwise_divide_c")
+             \* optional arguments: one at a time, on plain calls (no guess, unit scale, generic data, python backend, one seed)
+             /\ OptOK(op, opt)
+             /\ (opt # "default" => g = "none" /\ sc = "unit" /\ data = "rand" /\ ~cx /\ be = "py" /\ s = MinSeed)
+             /\ (opt \in {"band1", "band2"} => sys \in {"laplace", "diagvar"})
              /\ cfg = [op |-> op, N |-> N, M |-> IF sq THEN N ELSE RowsOf(N), r |-> r, e |-> e, guess |-> g, seed |-> s, cx |-> cx,
-                       backend |-> be, data |-> data, prec |-> prec, maxfull |-> mf, solver |-> ls, sys |-> sys, scale |-> sc]
+                       backend |-> be, data |-> data, prec |-> prec, maxfull |-> mf, solver |-> ls, sys |-> sys, scale |-> sc,
+                       opt |-> opt]
 
 \* the abstract expected outcome
 Outcome(c) ==
